@@ -1,4 +1,4 @@
-import Lemmas.ExtractOnly
+import Lemmas.ExtractOverlay
 /-! # C19 — archive extraction reproduces the archive inside the destination only
 
 All theorems are about the definitions the model driver `drv_c19` executes (`Ex.tarExtract`, `Ex.zipExtract`,
@@ -487,5 +487,238 @@ example : ((tarExtract demoFs demoRoot 0o750 demoArchive).1.nodes.filter (fun x 
     [[[100], [97]], [[100], [104]], [[100], [115]], [[100], [115], [108]], [[100], [115], [116]],
      [[100], [115], [116], [117]], [[100], [120]], [[100], [120], [122]]] := by decide
 example : (zipExtract demoFs demoRoot 0o750 demoZip).2 = true := by decide
+
+/-! ## Extraction into an arbitrary tree: the overlay specification
+
+`Ex.overlayStep root mask t e` (Lemmas/ExtractOverlay.lean) says, without loops, guards or error handling, what one
+successful iteration does to ANY tree `t` (a function from paths to nodes plus the inode table): what exists is kept;
+an absent entry path receives the entry's node; every absent non-empty proper prefix of it becomes a directory with
+`pmode e & mask`; a regular-file entry on an existing file rewrites that file's inode (content replaced, mode kept);
+skipped type flags change nothing.  The theorems below prove this of the model for every initial file system (no
+emptiness, no well-formedness needed), every root and every archive; which iterations are NOT successful is
+`tarOne_error_iff` / `zipOne_error_iff` / `syscall_error_iff`, and what a failing iteration leaves is
+`failed_step_effect`. -/
+
+/-- *skipped type flags* (fifo, devices, contiguous files, PAX global headers, … — every tar type flag other than the
+    four extracted ones): the iteration changes nothing at all, and it fails exactly when the name does not clean to a
+    proper descendant of the destination or the guard refuses the path (a symbolic link on it, a file in the middle).
+    So a skipped entry contributes nothing and never an escape. -/
+theorem skipped_flag_noop (fs : FS) (root : P) (mask : Nat) (e : Entry) (hk : e.kind = .other) :
+    tarOne fs root mask e =
+      (fs, lexOK root (cleanJoin root e.name) false && ensureNoSymlinks fs root (cleanJoin root e.name)) :=
+  tarOne_other fs root mask e hk
+
+/-- … hence an error-free run of an archive is the run of the archive without its skipped entries: every exactness
+    theorem (`extract_reproduces`, `extract_reproduces_distinct`, `extract_overlay`) applies to the filtered archive
+    and speaks about the tree the full archive produces -/
+theorem skipped_flags_filter (root : P) (mask : Nat) (es : List Entry) (fs : FS)
+    (hok : (tarExtract fs root mask es).2 = true) :
+    tarExtract fs root mask (es.filter (fun e => e.kind != .other)) = tarExtract fs root mask es :=
+  tarExtract_filter root mask es fs hok
+
+/-- *one successful iteration on any tree is `overlayStep`* (tar: any entry; zip: the three kinds its reader yields) -/
+theorem step_overlay (fs : FS) (root : P) (hr : GoodPath root) (hroot : root ≠ []) (mask : Nat) (e : Entry) :
+    ((tarOne fs root mask e).2 = true → (tarOne fs root mask e).1.view = overlayStep root mask fs.view e) ∧
+    ((e.kind = .reg ∨ e.kind = .dir ∨ e.kind = .symlink) → (zipOne fs root mask e).2 = true →
+      (zipOne fs root mask e).1.view = overlayStep root mask fs.view e) :=
+  ⟨tarOne_overlay fs root hr hroot mask e _ rfl, zipOne_overlay fs root hr hroot mask e⟩
+
+/-- *extraction into an arbitrary pre-existing tree* (non-empty destination, the tree a previous run left, a
+    destination with links in it — anything): an error-free run produces exactly the overlay of the archive on the old
+    tree, entry by entry in archive order.  Together with `extract_error_iff` (a run fails iff some iteration fails on
+    the tree its predecessors left), `first_error_stops` and `failed_step_effect` this determines the result of every
+    run on every tree. -/
+theorem extract_overlay (root : P) (hr : GoodPath root) (hroot : root ≠ []) (mask : Nat) (es : List Entry) (fs : FS) :
+    ((tarExtract fs root mask es).2 = true →
+      (tarExtract fs root mask es).1.view = es.foldl (overlayStep root mask) fs.view) ∧
+    ((∀ e ∈ es, e.kind = .reg ∨ e.kind = .dir ∨ e.kind = .symlink) → (zipExtract fs root mask es).2 = true →
+      (zipExtract fs root mask es).1.view = es.foldl (overlayStep root mask) fs.view) :=
+  ⟨tarExtract_overlay root hr hroot mask es fs, zipExtract_overlay root hr hroot mask es fs⟩
+
+/-- *what a failing iteration leaves* (tar): nothing; or the missing parent directories of the entry, with
+    `0o755 & mask` (the call on the entry's own path — open, symlink, link — or the check of a hard link's target
+    failed after `MkdirAll`); or, for a regular file whose payload could not be copied in full, exactly what the
+    successful iteration leaves, the file holding the bytes that could be copied.  Nothing that existed is changed
+    in the first two cases. -/
+theorem failed_step_effect (fs : FS) (root : P) (hr : GoodPath root) (hroot : root ≠ []) (mask : Nat) (e : Entry)
+    (hf : (tarOne fs root mask e).2 = false) :
+    (tarOne fs root mask e).1 = fs ∨
+    ((e.kind = .reg ∨ e.kind = .symlink ∨ e.kind = .link) ∧
+      (tarOne fs root mask e).1.view = ⟨stepGet fs.view (cleanJoin root e.name) none (0o755 &&& mask), fs.inodes⟩) ∨
+    (e.kind = .reg ∧ e.short = true ∧ (tarOne fs root mask e).1.view = overlayStep root mask fs.view e) :=
+  tarOne_failed_effect fs root hr hroot mask e _ rfl hf
+
+/-- *what exists is never replaced* (specification side of `extract_monotone`), and *the first entry that needs an
+    absent path decides what appears there* — in particular the **directory-mode rule for late-listed directories**:
+    if `q` was absent, no earlier entry needed it, and `e` is the first entry whose path runs through `q`, then after
+    an error-free run `q` is a directory with `pmode e & mask` (`0o755 & mask`, or `perm mode & mask` of `e` itself if
+    `e` is a directory entry: `os.MkdirAll(path, mode)` uses one mode for the whole chain) — whatever comes later, a
+    directory entry for `q` with another mode included: `MkdirAll` does not touch an existing directory. -/
+theorem late_directory_mode (root : P) (hr : GoodPath root) (hroot : root ≠ []) (mask : Nat)
+    (l1 : List Entry) (e : Entry) (l2 : List Entry) (fs : FS) (q : P)
+    (hq : fs.get q = none) (hne : q ≠ [])
+    (hl1 : ∀ e' ∈ l1, ¬ (e'.creates ∧ q <+: cleanJoin root e'.name))
+    (hc : e.creates) (hpre : q <+: cleanJoin root e.name) (hqp : q ≠ cleanJoin root e.name) :
+    ((tarExtract fs root mask (l1 ++ e :: l2)).2 = true →
+      (tarExtract fs root mask (l1 ++ e :: l2)).1.get q = some (.dir (pmode e &&& mask))) ∧
+    ((∀ x ∈ l1 ++ e :: l2, x.kind = .reg ∨ x.kind = .dir ∨ x.kind = .symlink) →
+      (zipExtract fs root mask (l1 ++ e :: l2)).2 = true →
+      (zipExtract fs root mask (l1 ++ e :: l2)).1.get q = some (.dir (pmode e &&& mask))) := by
+  have hspec := overlay_first_parent root mask l1 e l2 fs.view q hq hne hl1 hc hpre hqp
+  constructor
+  · intro hok
+    have := congrArg (fun t => t.get q) (tarExtract_overlay root hr hroot mask _ fs hok)
+    exact this.trans hspec
+  · intro hk hok
+    have := congrArg (fun t => t.get q) (zipExtract_overlay root hr hroot mask _ fs hk hok)
+    exact this.trans hspec
+
+/-- *the first entry at an absent path*: it is there afterwards as recorded (directory with its masked mode, symbolic
+    link with its target, regular file on a new inode), whatever later entries of the same name say (a later regular
+    entry rewrites the content — `existing_file_rule` — the node stays) -/
+theorem first_entry_at_path (root : P) (hr : GoodPath root) (hroot : root ≠ []) (mask : Nat)
+    (l1 : List Entry) (e : Entry) (l2 : List Entry) (fs : FS)
+    (hq : fs.get (cleanJoin root e.name) = none)
+    (hl1 : ∀ e' ∈ l1, ¬ (e'.creates ∧ cleanJoin root e.name <+: cleanJoin root e'.name))
+    (hok : (tarExtract fs root mask (l1 ++ e :: l2)).2 = true) :
+    (e.kind = .dir → (tarExtract fs root mask (l1 ++ e :: l2)).1.get (cleanJoin root e.name) =
+      some (.dir (perm e.mode &&& mask))) ∧
+    (e.kind = .symlink → (tarExtract fs root mask (l1 ++ e :: l2)).1.get (cleanJoin root e.name) =
+      some (.symlink e.link)) ∧
+    (e.kind = .reg → ∃ ino, (tarExtract fs root mask (l1 ++ e :: l2)).1.get (cleanJoin root e.name) =
+      some (.file ino) ∧ fs.inodes.size ≤ ino) := by
+  have hov := tarExtract_overlay root hr hroot mask _ fs hok
+  have hget := congrArg (fun t => t.get (cleanJoin root e.name)) hov
+  refine ⟨fun hk => ?_, fun hk => ?_, fun hk => ?_⟩
+  · exact hget.trans (overlay_first_self root mask l1 e l2 fs.view hq hl1 (Or.inr (Or.inl hk)) _
+      (by simp [newNode, hk]))
+  · exact hget.trans (overlay_first_self root mask l1 e l2 fs.view hq hl1 (Or.inr (Or.inr (Or.inl hk))) _
+      (by simp [newNode, hk]))
+  · refine ⟨_, hget.trans (overlay_first_self root mask l1 e l2 fs.view hq hl1 (Or.inl hk) _
+      (by simp [newNode, hk]; rfl)), ?_⟩
+    -- the inode table only grows
+    have hok1 : (tarExtract fs root mask l1).2 = true := by
+      by_cases h : (tarExtract fs root mask l1).2 = true
+      · exact h
+      · exfalso
+        have hf : (tarExtract fs root mask l1).2 = false := by simpa using h
+        obtain ⟨a, x, b, fs1, hsplit, h1, h2⟩ := (extractWith_ok_iff _ l1 fs).mp hf
+        have := extractWith_stop (fun fs e => tarOne fs root mask e) fs fs1 a (b ++ e :: l2) x h1 h2
+        have heq : a ++ x :: (b ++ e :: l2) = l1 ++ e :: l2 := by rw [hsplit]; simp
+        rw [heq] at this
+        unfold tarExtract at hok
+        rw [this] at hok; cases hok
+    have hv := tarExtract_overlay root hr hroot mask l1 fs hok1
+    have hs : (List.foldl (overlayStep root mask) fs.view l1).inodes = (tarExtract fs root mask l1).1.inodes :=
+      (congrArg Tree.inodes hv).symm
+    rw [hs]
+    exact (extractWith_sys root _ (fun fs e => tarOne_sys root hr fs mask e) fs l1).fr.size
+
+/-- *an entry that names the destination itself* (`./`, `.`, the empty name, `a/..` as a directory entry) on an
+    existing destination directory: no error and nothing changes, in both loops.  (On a missing destination it creates
+    it — and its missing ancestors — with `perm mode & mask`: `late_directory_mode` / `extract_overlay` with
+    `q = root`; on a destination that is a file or a symbolic link it fails: `tarOne_error_iff`.) -/
+theorem root_entry (fs : FS) (hw : WF fs) (root : P) (mask : Nat) (e : Entry) (hk : e.kind = .dir)
+    (hp : cleanJoin root e.name = root) (m : Nat) (hd : fs.get root = some (.dir m)) :
+    tarOne fs root mask e = (fs, true) ∧ zipOne fs root mask e = (fs, true) :=
+  root_entry_noop fs hw root mask e hk hp m hd
+
+/-- *files that exist before the extraction* (pre-existing content of a non-empty destination, files left by a
+    previous run, and — through a pre-existing hard link — files outside): for every run, failing or not,
+    * the mode of an existing file never changes;
+    * its content afterwards is the old content or the payload (the bytes that could be read) of a regular-file entry
+      of the archive — namely of the last such entry extracted onto a path holding that inode (`step_overlay`);
+    * if no path at or below the destination holds the inode before the extraction, content and mode are unchanged.
+    So with **no link pointing outside** in the pre-existing tree nothing outside is touched at all
+    (`extract_contained` for the nodes — it needs no hypothesis on the tree inside —, this theorem for the contents;
+    pre-existing symbolic links are never followed, the guard fails on them: `ensureNoSymlinks_spec`,
+    `tarOne_error_iff`).  With a pre-existing **hard link inside the destination to an outside file** — the one case the
+    extractors cannot see — a regular-file entry extracted onto that link (or onto a hard-link entry made to it)
+    replaces the outside file's content by its payload; its mode, name, and every other outside file stay. -/
+theorem existing_file_rule (root : P) (hr : GoodPath root) (hroot : root ≠ []) (mask : Nat) (es : List Entry) (fs : FS)
+    (i : Nat) (nd : Inode) (hi : fs.inodes[i]? = some nd) :
+    ((tarExtract fs root mask es).1.inodes[i]? = some nd ∨
+      ∃ e ∈ es, e.kind = .reg ∧ (tarExtract fs root mask es).1.inodes[i]? = some { nd with data := e.data }) ∧
+    ((∀ e ∈ es, e.kind = .reg ∨ e.kind = .dir ∨ e.kind = .symlink) →
+      ((zipExtract fs root mask es).1.inodes[i]? = some nd ∨
+        ∃ e ∈ es, e.kind = .reg ∧ (zipExtract fs root mask es).1.inodes[i]? = some { nd with data := e.data })) ∧
+    (¬ RefsBelow root fs i → (tarExtract fs root mask es).1.inodes[i]? = some nd ∧
+      (zipExtract fs root mask es).1.inodes[i]? = some nd) := by
+  refine ⟨tarExtract_inode_history root hr hroot mask es fs i nd hi,
+    fun hk => zipExtract_inode_history root hr hroot mask es hk fs i nd hi, fun hout => ?_⟩
+  have := extract_contained_inodes root hr mask es fs i (lt_of_getElem? hi) hout
+  exact ⟨this.1.trans hi, this.2.trans hi⟩
+
+/-! ### the new theorems are not vacuous -/
+
+/-- a skipped type flag between two files: no error, nothing of it on disk -/
+example : (tarExtract demoFs demoRoot 0o755
+    [{ kind := .reg, name := [97], data := [1] }, { kind := .other, name := [120] },
+     { kind := .reg, name := [98], data := [2] }]).2 = true := by decide
+example : (tarExtract demoFs demoRoot 0o755
+    [{ kind := .reg, name := [97], data := [1] }, { kind := .other, name := [120] },
+     { kind := .reg, name := [98], data := [2] }]).1.get [[100], [120]] = none := by decide
+/-- … and one that tries to leave the destination is an error -/
+example : (tarExtract demoFs demoRoot 0o755 [{ kind := .other, name := [46, 46, 47, 120] }]).2 = false := by decide
+
+/-- `./` on the existing destination: nothing changes; on a missing one it is created with the entry's masked mode -/
+example : (tarExtract demoFs demoRoot 0o755 [{ kind := .dir, name := [46, 47], mode := 0o700 }]).1.get demoRoot =
+    some (.dir 0o755) := by decide
+example : (tarExtract { nodes := [([], .dir 0o755)] } demoRoot 0o750 [{ kind := .dir, name := [46, 47], mode := 0o777 }]).1.get
+    demoRoot = some (.dir 0o750) := by decide
+example : cleanJoin demoRoot [46, 47] = demoRoot := by decide
+
+/-- a non-empty destination: `/d/a` (mode 0600, content 9), `/d/s/`, the outside file `/o/v` and the pre-existing hard
+    link `/d/h` to it -/
+def fullFs : FS :=
+  { nodes := [([], .dir 0o755), ([[100]], .dir 0o755), ([[100], [97]], .file 0), ([[100], [115]], .dir 0o700),
+              ([[111]], .dir 0o755), ([[111], [118]], .file 1), ([[100], [104]], .file 1)],
+    inodes := #[{ data := [9], mode := 0o600 }, { data := [7, 7], mode := 0o644 }] }
+
+/-- overlay on the old tree: `a` is rewritten (mode kept), `s/` is kept with its old mode although the archive lists it
+    with another one, `s/n` is new -/
+example : (tarExtract fullFs demoRoot 0o777
+    [{ kind := .reg, name := [97], mode := 0o777, data := [1, 2] }, { kind := .dir, name := [115], mode := 0o755 },
+     { kind := .reg, name := [115, 47, 110], mode := 0o640, data := [3] }]).2 = true := by decide
+example : (tarExtract fullFs demoRoot 0o777
+    [{ kind := .reg, name := [97], mode := 0o777, data := [1, 2] }, { kind := .dir, name := [115], mode := 0o755 },
+     { kind := .reg, name := [115, 47, 110], mode := 0o640, data := [3] }]).1.inodes.toList =
+    [{ data := [1, 2], mode := 0o600 }, { data := [7, 7], mode := 0o644 }, { data := [3], mode := 0o640 }] := by decide
+example : (tarExtract fullFs demoRoot 0o777
+    [{ kind := .reg, name := [97], mode := 0o777, data := [1, 2] }, { kind := .dir, name := [115], mode := 0o755 },
+     { kind := .reg, name := [115, 47, 110], mode := 0o640, data := [3] }]).1.get [[100], [115]] = some (.dir 0o700) := by
+  decide
+/-- EEXIST: a symbolic-link entry onto the existing file is an error -/
+example : (tarExtract fullFs demoRoot 0o777 [{ kind := .symlink, name := [97], link := [120] }]).2 = false := by decide
+/-- the pre-existing hard link to an outside file: a regular entry of that name rewrites the outside file's content
+    (mode kept); this is what `existing_file_rule` allows, and `RefsBelow` holds of that inode -/
+example : (tarExtract fullFs demoRoot 0o777 [{ kind := .reg, name := [104], data := [5] }]).1.inodes[1]? =
+    some { data := [5], mode := 0o644 } := by decide
+example : RefsBelow demoRoot fullFs 1 := ⟨[[100], [104]], by decide, by decide⟩
+
+/-- a directory listed after its content keeps the mode of the first `MkdirAll` (here `0o755 & mask`), not its own -/
+example : (tarExtract demoFs demoRoot 0o777
+    [{ kind := .reg, name := [115, 47, 116], data := [1] }, { kind := .dir, name := [115], mode := 0o700 }]).1.get
+    [[100], [115]] = some (.dir 0o755) := by decide
+/-- … and listed first it has its own -/
+example : (tarExtract demoFs demoRoot 0o777
+    [{ kind := .dir, name := [115], mode := 0o700 }, { kind := .reg, name := [115, 47, 116], data := [1] }]).1.get
+    [[100], [115]] = some (.dir 0o700) := by decide
+
+/-- a failing iteration: the payload of `s/t` is cut short — error, the parent and the partial file stay -/
+example : (tarExtract demoFs demoRoot 0o777
+    [{ kind := .reg, name := [115, 47, 116], data := [1], short := true }, { kind := .reg, name := [98] }]).2 = false := by
+  decide
+example : (tarExtract demoFs demoRoot 0o777
+    [{ kind := .reg, name := [115, 47, 116], data := [1], short := true }, { kind := .reg, name := [98] }]).1.get
+    [[100], [98]] = none := by decide
+
+/-- the tree a previous run left: extracting `demoArchive` a second time fails (its hard link and its symbolic link
+    are in the way: EEXIST / the guard), extracting an archive of files and directories a second time does not -/
+example : (tarExtract (tarExtract demoFs demoRoot 0o750 demoArchive).1 demoRoot 0o750 demoArchive).2 = false := by decide
+example : (tarExtract (tarExtract demoFs demoRoot 0o750
+    [{ kind := .dir, name := [115], mode := 0o700 }, { kind := .reg, name := [115, 47, 116], data := [1] }]).1 demoRoot 0o750
+    [{ kind := .dir, name := [115], mode := 0o700 }, { kind := .reg, name := [115, 47, 116], data := [1] }]).2 = true := by
+  decide
 
 end C19
